@@ -632,7 +632,7 @@ pub fn run_c16(seed: u64, run: u64) -> Acc {
     // timing faults only inside the prefix
     if n_go_prefix > 0 && rng.chance(1, 2) {
         b.jitter_max_ns = 0;
-        let enabled = [true, true, true, false, false];
+        let enabled = [true, true, true, false, true];
         sa::gen_timing_faults(&mut rng, &mut b, n_go_prefix, &enabled);
     }
     let ra = sa::run(&a);
